@@ -120,8 +120,11 @@ pub open spec fn fde_at_offset<R: Reader<Offset = usize>>(f: FrameDescriptionEnt
     f.s_offset() as nat == off && f.s_length() as nat == px_len(b) && f.s_format() == px_format(b)
     && !id_is_cie(is_eh, px_is64(b), px_id(b, is_eh)) && fde_body(f, px_rest(b, is_eh), sec, bases)
 }
-/// R-TRAITSPLIT: every unwind section has the lookup methods (gimli: they are default methods of UnwindSection itself)
-impl<R: Reader<Offset = usize>, S: UnwindSection<R>> UnwindSectionLookup<R> for S {}
+/// R-TRAITSPLIT: both unwind sections have the lookup methods (gimli: they are default methods of UnwindSection itself, which
+/// has exactly these two implementations).  (A blanket `impl<S: UnwindSection<R>> .. for S` is equivalent but makes the trait
+/// reachable from every type, which destabilises unrelated bit-vector proofs of the core layer.)
+impl<R: Reader<Offset = usize>> UnwindSectionLookup<R> for DebugFrame<R> {}
+impl<R: Reader<Offset = usize>> UnwindSectionLookup<R> for EhFrame<R> {}
 """
 
 GETCIE_OK = ('forall|s: &Self, o: Self::Offset| s.sec() == self.sec() && s.asz() == self.asz() ==> #[trigger] get_cie.requires((s, bases, o))')
@@ -231,8 +234,21 @@ def extend_iter_next(ctx, sk):
                     '    res matches Ok(Some(CieOrFde::Fde(f))) ==> f.s_section().asz() == old(self).s_section().asz(),\n')
 
 
+def pin_core_order(ctx, sk):
+    """Work-around for an ordering hazard of the core layer (reported; the fix belongs in core.py): the obligations of
+    `impl ReaderAddress for u64` are stated by the trait in terms of `val()`, but the bodies never mention u64's own `val`, so
+    Verus' call graph does not order `<u64 as ReaderAddress>::val` before them; whether its defining axiom is already in the
+    solver context when `ones_sized` / `wrapping_add_sized` are checked then depends on unrelated items of the crate (with the
+    lookups added it is not: both fail deterministically, reseeding does not help).  A ghost mention creates the edge."""
+    its = [c[0] for c in sk.mods['read::reader']['chunks'] if isinstance(c[0], Item) and c[0].label == 'ReaderAddress for u64']
+    if len(its) != 1:
+        raise Lost('core no longer emits exactly one `ReaderAddress for u64` item')
+    its[0].insert_before('!0 >> (64 - size * 8)', 'proof { assert((0u64).val() == 0u64); }\n')
+
+
 def populate(ctx, sk):
     cfi_entries.populate(ctx, sk)
+    pin_core_order(ctx, sk)
     extend_iter_next(ctx, sk)
     eh_hdr_table(ctx, sk)
     section_lookups(ctx, sk)
